@@ -422,8 +422,9 @@ def check_C07(tier):
     with_branch = [c for c in with_branch if c["fam"] != "flags" or (40 in c["e"] and (tier == "thorough" or rnd0.random() < 0.5))]
     rels = L.gen_relations(with_branch, tier)
     rnd = random.Random(C.SEED)
-    if tier == "quick":
-        rels = [r for r in rels if r["law"] in ("alt", "rep") or rnd.random() < 0.25]
+    # the wrapping laws ({e} = e, <e:1> = e) are sampled in the quick tier
+    keep = 0.25 if tier == "quick" else 1.0
+    rels = [r for r in rels if r["law"] in ("alt", "rep") or rnd.random() < keep]
     # every text involved becomes a case; then the any-combinations with their members
     texts = set()
     for r in rels:
@@ -467,17 +468,40 @@ def check_C07(tier):
         ms = [any_ident[tuple(m)] for m in a["members"]]
         if usable(a["id"]) and all(usable(m) for m in ms):
             recs.append({"law": "any-" + a["mode"], "mode": "eq", "zt": False, "tr": False, "orig": a["id"], "members": ms})
+    # relations are independent: they are checked in shards, each with the observations it refers to (renumbered,
+    # UnionCheck indexes observations by position)
     d = os.path.dirname(obs_path)
-    rel_path = os.path.join(d, "rel-%s.rel" % tier)
-    L.write_ndjson(rel_path, recs)
-    out, stats = C.tlc("UnionCheck.tla", "UnionCheck.cfg", env={"OBS": obs_path, "REL": rel_path}, timeout=3000, java_opts=["-Xmx12g"])
-    if not stats["ok"]:
-        C.log(stats.get("tail", ""))
-        raise C.ToolError("TLC did not complete on UnionCheck")
+    stats = {"distinct": 0, "generated": 0, "wall_s": 0.0}
+    tlc_recs = []
+    chunk = 50000
+    for off in range(0, len(recs), chunk):
+        part = recs[off:off + chunk]
+        ids = sorted({i for r in part for i in [r["orig"]] + r["members"]})
+        remap = {i: k + 1 for k, i in enumerate(ids)}
+        sub_obs = os.path.join(d, "rel-%s-%d.obs.ndjson" % (tier, os.getpid()))
+        rel_path = os.path.join(d, "rel-%s-%d.rel" % (tier, os.getpid()))
+        L.write_ndjson(sub_obs, [dict(by_id[i], id=remap[i]) for i in ids])
+        L.write_ndjson(rel_path, [dict(r, orig=remap[r["orig"]], members=[remap[m] for m in r["members"]]) for r in part])
+        try:
+            out, st = C._tlc_once("UnionCheck.tla", "UnionCheck.cfg", {"OBS": sub_obs, "REL": rel_path}, None, 3000, (), ["-Xmx12g"])
+        finally:
+            os.remove(sub_obs)
+            os.remove(rel_path)
+        if not st["ok"]:
+            C.log(st.get("tail", ""))
+            raise C.ToolError("TLC did not complete on UnionCheck")
+        for k in ("distinct", "generated", "wall_s"):
+            stats[k] += st[k]
+        for r in C.tlc_records(out):
+            if "rel" in r:
+                r["rel"] += off
+            tlc_recs.append(r)
+    if len(recs) > chunk:
+        C.log("[tlc] UnionCheck: %d relations in %d shards (%.0fs)" % (len(recs), (len(recs) + chunk - 1) // chunk, stats["wall_s"]))
     v = C.Verdict("C07")
     n = 0
     witness = {}
-    for r in C.tlc_records(out):
+    for r in tlc_recs:
         if r["t"] != "DISAGREE":
             continue
         n += 1
